@@ -205,7 +205,9 @@ REGEXES = ["/a/", "/[a-z]+/", "/a|b/", "/x*/", "/[0-9]+(\\.[0-9]+)?/"]
 PREDEFS = ["$WS", "$ID", "$NUMBER", "$STRING", "$FOO"]
 
 
-def render(rng, toks, seps=(" ", " ", "\n", "\t", "  ", " /* c */ ", " // c\n", "\n\n")):
+def render(rng, toks, seps=(" ", " ", " ", "\n", "\t", "  ", " /* c */ ", " // c\n", "\n\n", " ", "\n",
+                            # comments that end in runs of asterisks, hold asterisks and slashes, span lines
+                            " /** d **/ ", "/****/", " /* a * b / c */ ", "/***/", " /*** x\n * y ****/\n", " /**/ ", " // * / */\n")):
     """token kinds -> source text with random lexemes and separators; returns (text, lexemes)"""
     parts, lex = [], []
     for k in toks:
